@@ -3,7 +3,7 @@
 worktree of /repo (outside /repo and /verif), points the driver at it (VERIF_REPO) and runs the quick (or
 thorough) check of the targeted properties, expecting a VIOLATION.  Not a registered command.
 
-  tools/mutation_check.py [--tier quick|thorough] [--jobs N] [--only substring] patch [patch...]
+  tools/mutation_check.py [--tier quick|thorough] [--jobs N] [--checks C01,C07] patch [patch...]
 
 Patch header lines understood:   # property: C01,C19      (checks to run)
 """
@@ -31,7 +31,7 @@ def props_of(patch):
     raise SystemExit(f"{patch}: no '# property:' header / meta.json")
 
 
-def run_one(patch, tier):
+def run_one(patch, tier, only=None):
     name = re.sub(r"[^A-Za-z0-9_.-]", "_", os.path.relpath(patch, VERIF))
     wt = f"/tmp/mut_{name}_{os.getpid()}"
     out = {"patch": os.path.relpath(patch, VERIF), "results": {}}
@@ -47,7 +47,7 @@ def run_one(patch, tier):
             if r.returncode != 0:
                 out["error"] = "patch does not apply: " + r.stdout[-500:]
                 return out
-        for pid in props_of(patch):
+        for pid in (only or props_of(patch)):
             tmp = f"/tmp/mut_out_{name}_{pid}_{os.getpid()}"
             env = dict(os.environ, VERIF_REPO=wt, VERIF_EVIDENCE_DIR=tmp + "/evidence", VERIF_REPLAY_DIR=tmp + "/replays")
             t0 = time.time()
@@ -67,17 +67,19 @@ def run_one(patch, tier):
 
 def main():
     args = sys.argv[1:]
-    tier, jobs, patches = "quick", 2, []
+    tier, jobs, patches, only = "quick", 2, [], None
     i = 0
     while i < len(args):
         if args[i] == "--tier":
             tier = args[i + 1]; i += 2
+        elif args[i] == "--checks":
+            only = args[i + 1].split(","); i += 2
         elif args[i] == "--jobs":
             jobs = int(args[i + 1]); i += 2
         else:
             patches.append(os.path.abspath(args[i])); i += 1
     with cf.ThreadPoolExecutor(max_workers=jobs) as ex:
-        for res in ex.map(lambda p: run_one(p, tier), patches):
+        for res in ex.map(lambda p: run_one(p, tier, only), patches):
             caught = [p for p, r in res.get("results", {}).items() if r["exit"] == 1]
             status = "CAUGHT by " + ",".join(caught) if caught else ("ERROR " + res.get("error", "") if "error" in res else "MISSED")
             print(f"{res['patch']}: {status}")
